@@ -23,6 +23,13 @@ LAYOUTS = [
     [[4, 3, 18, [16]], [5, 1, 4, []], [10, None, None, []]],
 ]
 
+API_BODIES = [{}, {'build_key': ''}, {'build_key': 'nightly'}, {'bypass_build_status': True, 'bypass_peer_approval': True},
+              {'required_peer_approvals': 0, 'need_author_approval': False, 'required_leader_approvals': 0},
+              {'admins': [AUTHOR, PEER]}, {'use_queue': False}, {'jira_keys': [], 'jira_account_url': ''},
+              {'no_comment': True}, {'approve': True, 'bypass_author_approval': True},
+              {'pr_author_options': {AUTHOR: {'bypass_build_status': True, 'bypass_peer_approval': True}}},
+              {'disable_version_checks': True, 'bypass_incompatible_branch': True}]
+
 STATES = ['SUCCESSFUL', 'FAILED', 'STOPPED', 'INPROGRESS', 'NOTSTARTED']
 
 
@@ -62,6 +69,7 @@ class Gen:
         self.admin_jobs = admin_jobs
         self.extra = extra or {}
         self.files = ['shared_a', 'shared_b']
+        self.api_rng = random.Random(repr(sorted(cfg.items())))
 
     def _label(self):
         self.n += 1
@@ -114,6 +122,13 @@ class Gen:
         roll = r.random()
         good = r.random() < 0.8
         if roll < 0.30:      # evaluate the pull request
+            ar = self.api_rng      # its own stream: the main one stays what it was before this event kind existed
+            if ar.random() < 0.15:
+                # through the API (POST /api/pull-requests/<id>, open to every authenticated user), with a JSON body
+                # that names settings of the instance: the body of that endpoint carries no meaning
+                body = ar.choice(API_BODIES)
+                return [{'e': 'job_api', 'kind': 'eval_pr', 'args': {'pr_id': p['id']}, 'body': body,
+                         'user': ar.choice([AUTHOR, PEER])}]
             return [{'e': 'job_pr', 'pr': p['id']}]
         if roll < 0.50:      # CI reports on the integration tips, then the webhook-triggered evaluation
             evs = []
@@ -329,6 +344,72 @@ def lifecycle_and_run(seed, on_job=None, mode=None, cfg_override=None, n_prs=Non
     finally:
         world.close()
     return {'cfg': cfg, 'events': events, 'seed': seed, 'family': 'lifecycle'}, log
+
+
+def backport_and_run(seed, on_job=None, mode=None, cfg_override=None, fault_for=None):
+    """Back-port family: a pull request whose source branch was cut from the earliest development branch is merged
+    into a LATER branch of the cascade; the earlier branch advances through another pull request; then a second pull
+    request from the same source branch targets the earlier branch (so every later destination already contains the
+    source tip while the first target needs a real merge commit).  Each pull request is driven to its merge."""
+    rng = random.Random(seed * 104729 + 7)
+    cfg = gen_cfg(rng, mode if mode else rng.choice(['noqueue', 'skip', 'noqueue', 'queue']))
+    multi = [l for l in LAYOUTS if sum(1 for d in dest_names(l)[0] if d.startswith('development/')) >= 2]
+    if sum(1 for d in dest_names(cfg['layout'])[0] if d.startswith('development/')) < 2:
+        cfg['layout'] = rng.choice(multi)
+    cfg.update({'peers': 0, 'leaders': 0, 'need_author': False, 'build_key': 'pre-merge'})
+    if cfg_override:
+        cfg.update(cfg_override)
+    world = sysworld.World(cfg)
+    events, log = [], []
+
+    def do(ev):
+        events.append(ev)
+        sub = run_history(world, [ev], on_job=on_job, fault_for=fault_for)
+        log.extend(sub)
+        return sub[0]
+    try:
+        gen = Gen(rng, cfg)
+        devs = [d for d in gen.dests if d.startswith('development/')]
+        if len(devs) < 2:        # cfg_override imposed a single-branch layout: nothing to back-port
+            return lifecycle_and_run(seed, on_job=on_job, mode=mode, cfg_override=cfg_override, fault_for=fault_for)
+        lo = rng.randrange(len(devs) - 1)
+        hi = rng.randrange(lo + 1, len(devs))
+
+        def drive(p):
+            for _round in range(2):
+                do({'e': 'job_pr', 'pr': p['id']})
+                for nme in gen.tips_of(p, world.refs()):
+                    do({'e': 'build', 'ref': nme, 'state': 'SUCCESSFUL' if rng.random() < 0.92 else rng.choice(STATES)})
+                do({'e': 'job_pr', 'pr': p['id']})
+                q = sorted(n for n in world.refs() if n.startswith('q/w/'))
+                for nme in q:
+                    do({'e': 'build', 'ref': nme, 'state': 'SUCCESSFUL'})
+                if q:
+                    do({'e': 'job_commit', 'ref': q[-1]})
+                st = {x['id']: x['state'] for x in world.prs()}
+                if st.get(p['id']) != 'OPEN':
+                    break
+
+        def open_pr(src, dst, **kw):
+            ev = dict({'e': 'create_pr', 'src': src, 'dst': dst, 'label': gen._label()}, **kw)
+            p = {'id': do(ev).get('res', {}).get('pr'), 'src': src, 'dst': dst, 'stage': 0}
+            gen.prs.append(p)
+            return p
+        first = open_pr('bugfix/TEST-1', devs[hi], **{'from': devs[lo]})
+        if first['id'] is not None:
+            drive(first)
+        for i in range(rng.choice([1, 1, 2])):
+            other = open_pr('feature/TEST-%d' % (i + 2), rng.choice(devs[:lo + 1]))
+            if other['id'] is not None:
+                drive(other)
+        if rng.random() < 0.25:
+            do({'e': 'push', 'branch': first['src'], 'label': gen._label()})
+        back = open_pr(first['src'], devs[lo], reuse=True)
+        if back['id'] is not None:
+            drive(back)
+    finally:
+        world.close()
+    return {'cfg': cfg, 'events': events, 'seed': seed, 'family': 'backport'}, log
 
 
 def branch_jobs_and_run(seed, on_job=None, mode=None, cfg_override=None, fault_for=None):
